@@ -40,13 +40,27 @@ def gates(tier):
     return {
         "min_decided": {a: 1500 * k for a in APIS},
         "shapes": {c: 3 * k for c in ["eps_rule", "nullable_cycle", "unary_cycle", "left_recursive", "useless_symbol",
-                                      "empty_language", "unary_rule", "ctx:nonviable", "ctx:viable", "ctx:has_eos", "w:Float", "w:Boolean", "w:Float-tiny", "w:Float-ones", "w:Float-huge", "clear_cache-between-queries"]},
+                                      "empty_language", "unary_rule", "ctx:nonviable", "ctx:viable", "ctx:has_eos", "w:Float", "w:Boolean", "w:Float-tiny", "w:Float-ones", "w:Float-huge", "clear_cache-between-queries"]} | {"long-context": 1},
         "min_hashseeds": 2,
     }
 
 
+LONG_TEMPLATES = {
+    # name: (rules, mask as a function of the number k of 'a' tokens read so far)
+    "right-recursion": ([[1, "S", ["a", "S"]], [1, "S", ["a"]]], lambda k: {"a"} if k == 0 else {"a", EOS}),
+    "nesting": ([[1, "S", ["a", "S", "b"]], [1, "S", ["a", "b"]]], lambda k: {"a"} if k == 0 else {"a", "b"}),
+    "left-recursion": ([[1, "S", ["S", "a"]], [1, "S", ["a"]]], lambda k: {"a"} if k == 0 else {"a", EOS}),
+    "right-spine-unary": ([[1, "S", ["A"]], [1, "A", ["a", "S"]], [1, "A", ["a"]]], lambda k: {"a"} if k == 0 else {"a", EOS}),
+}
+
+
 def gen_case(rng, spec):
     from rv.gen import grammars as GG
+
+    if rng.random() < (0.01 if spec.get("tier") == "quick" else 0.004):
+        # size threshold: one long context fed token by token (interpreter's default recursion budget per call)
+        name = rng.choice(sorted(LONG_TEMPLATES))
+        return {"long": name, "N": 300 if spec.get("tier") == "quick" else rng.choice([600, 1100]), "alg": "earley" if rng.random() < 0.8 else "cky"}
 
     g = GG.gen_grammar(rng)
     maxlen = 3 if spec.get("tier") == "quick" else 4
@@ -64,7 +78,50 @@ def gen_case(rng, spec):
     }
 
 
+def run_long(case, ctx):
+    import inspect
+    import sys
+    from fractions import Fraction as Fr
+
+    from genlm.grammar import BoolCFGLM
+
+    from rv import codec, lib
+
+    rules, mask = LONG_TEMPLATES[case["long"]]
+    g = {"S": "S", "V": ["a", "b"], "rules": [[Fr(1, 4), h, b] for _, h, b in rules]}
+    alg = case["alg"]
+    N = case["N"] if alg == "earley" else min(case["N"], 60)  # CKY is cubic
+    api = APIS[0] if alg == "earley" else APIS[1]
+    ctx.case(codec.fingerprint(case), True, ["long-context", f"long:{case['long']}"])
+    ok, cfg = ctx.call(api, case, lib.build_cfg, g, "Float")
+    if not ok:
+        return
+    ok, lm = ctx.call(api, case, BoolCFGLM, cfg, alg=alg)
+    if not ok:
+        return
+    x = ()
+    old_limit = sys.getrecursionlimit()
+    ctx.recursion_is_violation = True
+    try:
+        for k in range(N + 1):
+            sys.setrecursionlimit(len(inspect.stack(0)) + 950)
+            try:
+                ok, p = ctx.call(api, dict(case, k=k), lm.p_next, x)
+            finally:
+                sys.setrecursionlimit(old_limit)
+            if not ok:
+                return
+            if k % 25 == 0 or k == N:
+                ctx.check(api, set(p.keys()) == mask(k), f"{api}/long-context-mask", dict(case, k=k),
+                          {"k": k, "have": sorted(p.keys()), "want": sorted(mask(k))})
+            x = x + ("a",)
+    finally:
+        ctx.recursion_is_violation = False
+
+
 def run_case(case, ctx):
+    if case.get("long"):
+        return run_long(case, ctx)
     from genlm.grammar import BoolCFGLM
 
     from rv import codec, lib
